@@ -61,15 +61,18 @@ Theorem C19_transform_entries_monotone : forall o tree endp,
 Proof. exact transform_entries_monotone. Qed.
 Print Assumptions C19_transform_entries_monotone.
 
-(* source positions: full statement (every entry points at the start of a non-comment input
-   token, or at the position right after an `@import` keyword) — refuted by the code (D22:
-   `next_including_whitespace` records the position before skipping comments) *)
-Theorem C19_src_is_token_start_refuted : ~ C19_src_is_token_start_full.
-Proof. exact src_is_token_start_refuted. Qed.
-Print Assumptions C19_src_is_token_start_refuted.
+(* source positions, every token tree and option set: each entry of both outputs carries the start
+   position of a node of the input tree, or the end position of a block / of the input *)
+Theorem C19_entries_point_into_tree : forall o tree endp,
+  Forall (fun e => In (e_src e) (endp :: poss tree)) (o_entries (w_normal (transform o tree endp))) /\
+  Forall (fun e => In (e_src e) (endp :: poss tree)) (o_entries (w_low (transform o tree endp))).
+Proof. exact entries_point_into_tree. Qed.
+Print Assumptions C19_entries_point_into_tree.
 
-(* ... and it holds for every tree without comments, whatever the options *)
-Theorem C19_src_is_token_start_except_known : forall o tree endp,
+(* ... of a NON-COMMENT node (a token start) when the sheet has no comments.  With comments the
+   repaired code (fix c88801e) also maps to the token, see Example d22_witness_now_correct; the
+   general statement with comments is checked on every generated sheet, not proved. *)
+Theorem C19_src_is_token_start_no_comments : forall o tree endp,
   has_comment tree = false -> src_positions_ok o tree endp.
-Proof. exact src_is_token_start_except_known. Qed.
-Print Assumptions C19_src_is_token_start_except_known.
+Proof. exact src_is_token_start_no_comments. Qed.
+Print Assumptions C19_src_is_token_start_no_comments.
